@@ -140,7 +140,9 @@ class MEDDLY::pregen_relation {
                 return level_index[k - 1] - level_index[k];
             } else {
                 // "by levels"
-                return events[k].getNode() ? 1 : 0;
+                // A terminal here is the identity relation
+                // (left over from splitting): no event.
+                return (events[k].getNode() > 0) ? 1 : 0;
             }
         }
 
